@@ -798,8 +798,9 @@ def crash_events(ops, impl_out, segs):
                     ev.append(f"exp|{cid}|{kv['se']}")
                 if expiry.get(cid, 0) == 0:
                     ev.append(f"trm|{cid}")
-        # routed messages (publishes, wills): every RPUSH of the segment; deliveries: what the clients were sent
-        enq = [c.split(",")[1][6:] for c in seg if c.startswith("rpush,queue:")]
+        # routed messages (publishes, wills): every RPUSH of the segment; deliveries: what the clients were sent.
+        # The poll loop of an online client may run between two RPUSHes of one op (two copies of a message): the order of
+        # `enq` and `dlv` steps per client is the order of the journal (RPUSH = enq, a run of LSET/LREM behind it = dlv).
         dlv = {}
         for name, (h, pl) in conns.items():
             cid = conn_cid.get(name)
@@ -809,10 +810,31 @@ def crash_events(ops, impl_out, segs):
             fresh = [x for x in fresh if x and x["d"] == 0]
             if fresh:
                 dlv[cid] = [str(x["id"]) for x in fresh if x["q"] > 0]
-        for c in enq:
-            ev.append(f"enq|{c}")
-        for c, ids in dlv.items():
-            ev.append(f"dlv|{c}|{'+'.join(ids) if ids else '-'}")
+        qcmds = {}
+        for c in seg:
+            parts = c.split(",")
+            if len(parts) > 1 and parts[1].startswith("queue:") and parts[0] in ("rpush", "lset", "lrem"):
+                qcmds.setdefault(parts[1][6:], []).append(parts[0])
+        if ff[0] == "conn":
+            for c, cmds in qcmds.items():
+                for x in cmds:
+                    if x == "rpush": ev.append(f"enq|{c}")
+            for c, ids in dlv.items():
+                ev.append(f"dlv|{c}|{'+'.join(ids) if ids else '-'}")
+        elif ff[0] != "ack":
+            for c, cmds in qcmds.items():
+                ids = list(dlv.get(c, []))
+                i = 0
+                while i < len(cmds):
+                    if cmds[i] == "rpush":
+                        ev.append(f"enq|{c}"); i += 1
+                    else:
+                        j2 = i
+                        while j2 < len(cmds) and cmds[j2] != "rpush": j2 += 1
+                        n = sum(1 for x in cmds[i:j2] if x == "lset")
+                        ev.append(f"dlv|{c}|{'+'.join(ids[:n]) if n else '-'}")
+                        ids = ids[n:]
+                        i = j2
         evs.append("skip" if "skip" in ev else ";".join(ev))
     return evs
 
